@@ -58,7 +58,7 @@ def make_link(l, overrides=None):
         *args,
         turnrate=l["turnrate"],
         name=l["name"],
-        segments_with_vsl=set(l["vsl"]),
+        segments_with_vsl=set(reversed(l["vsl"])),  # a set: the library must not rely on its iteration order
         alpha=l["alpha"],
     )
 
